@@ -338,6 +338,10 @@ def main(argv=None):
           'undecided=%d wall=%.1fs exit=%d' % (pid, tier, len(keys), coverage['paths'], n_ob, n_pr,
                                                violations, len(undecided), wall, exit_code))
     if args.verbose:
+        for r in sorted(results, key=lambda r: -r.get('wall_s', 0))[:4]:
+            print('  GEN %.1fs %s paths=%d' % (r.get('wall_s', 0), r['key'], r['paths']))
+        for o in coverage['slowest']:
+            print('  SLOW %.2fs %s' % (o['seconds'], o['obligation']))
         for o in failed:
             print('  FAILED', o['name'], o['result'], o.get('witness'))
     return exit_code
